@@ -4,9 +4,11 @@ import (
 	"context"
 	"fmt"
 	"sync"
+	"sync/atomic"
 	"time"
 
 	"github.com/smart-core-os/sc-api/go/types"
+	"github.com/smart-core-os/sc-golang/internal/verifhook"
 	"github.com/smart-core-os/sc-golang/pkg/resource"
 	"github.com/smart-core-os/sc-golang/verifharness/vcoq"
 	"google.golang.org/protobuf/proto"
@@ -55,7 +57,27 @@ func jsChanges(l []cchange) []any {
 	return out
 }
 
+// wclock gives the writes of a run explicit write times (resource.WithWriteTime) that jump forwards
+// and backwards: delivery must not depend on change times being monotonic (a back-dated write, a
+// clock that steps back).  Off for half of the runs (default clock).
+type wclock struct {
+	r  *vcoq.Rand
+	on bool
+}
+
+func newWClock(r *vcoq.Rand) *wclock { return &wclock{r: r, on: r.Chance(50)} }
+
+func (w *wclock) opts() []resource.WriteOption {
+	if w == nil || !w.on {
+		return nil
+	}
+	return []resource.WriteOption{resource.WithWriteTime(time.Unix(1_700_000_000+int64(w.r.Range(-5000, 5000)), 0))}
+}
+
 type collRun struct {
+	pre         int  // items in the collection when the subscription opened
+	seedsTaken  int  // seed events the consumer had received before the first write
+	writeTimes  bool // explicit non-monotonic write times
 	updatesOnly bool
 	scenario    string // "" single subscriber; otherwise the multi-subscriber scenario and this subscriber's role
 	bp          bool
@@ -67,29 +89,30 @@ type collRun struct {
 }
 
 // one random valid write on the collection; returns the event the store must have published
-func collWrite(c *resource.Collection, s *sstate, r *vcoq.Rand, nids int64) (cchange, time.Duration, error) {
+func collWrite(c *resource.Collection, s *sstate, r *vcoq.Rand, nids int64, wc *wclock) (cchange, time.Duration, error) {
 	id := int64(r.Intn(int(nids)))
 	opts := s.options(id)
 	w := opts[r.Intn(len(opts))]
 	if w == 'd' && r.Chance(40) {
 		w = 'u'
 	}
-	return collWriteAt(c, s, id, w)
+	return collWriteAt(c, s, id, w, wc)
 }
 
 // the write `w` ('a' add, 'u' update, 'd' delete; must be valid in state s) on id
-func collWriteAt(c *resource.Collection, s *sstate, id int64, w byte) (cchange, time.Duration, error) {
+func collWriteAt(c *resource.Collection, s *sstate, id int64, w byte, wc *wclock) (cchange, time.Duration, error) {
 	ev := s.emit(id, w).C
 	ev.Time = 0
+	wo := wc.opts()
 	dt, err, blocked := timed(func() error {
 		var err error
 		switch w {
 		case 'a':
-			_, err = c.Add(idName(id), tok(*ev.New))
+			_, err = c.Add(idName(id), tok(*ev.New), wo...)
 		case 'u':
-			_, err = c.Update(idName(id), tok(*ev.New))
+			_, err = c.Update(idName(id), tok(*ev.New), wo...)
 		default:
-			_, err = c.Delete(idName(id))
+			_, err = c.Delete(idName(id), wo...)
 		}
 		return err
 	})
@@ -122,24 +145,59 @@ func sameView(a, b map[int64]int64) bool {
 
 func canonAPI(c *resource.CollectionChange) cchange {
 	cc := canonChange(c)
-	cc.Time = 0
+	// change times and seed flags are not C09's subject (C04 / C03); a seed event counts as the ADD it is
+	cc.Time, cc.Seed, cc.Last = 0, false, false
 	return cc
 }
 
 // lossy: the subscriber sleeps during each burst, then reads until its folded view equals the
 // committed view (or the budget runs out)
-func runCollLossy(r *vcoq.Rand, rounds, burst int, nids int64, updatesOnly bool) (collRun, error) {
-	run := collRun{converged: true, rounds: rounds, updatesOnly: updatesOnly}
+//
+// pre > 0: the collection holds items 0..pre-1 when the subscription opens.  A seeded subscriber
+// takes only some (0..pre-1) of its seed events before the writes start: writes must not wait for
+// the rest of the seed to be consumed.  The items are the head of the committed script; a seeded
+// subscriber receives them as its seed, an updates-only one is taken to know them already (they
+// are put at the head of its received list: that is its start view).
+func runCollLossy(r *vcoq.Rand, rounds, burst int, nids int64, updatesOnly bool, pre int) (collRun, error) {
+	run := collRun{converged: true, rounds: rounds, updatesOnly: updatesOnly, pre: pre}
+	wc := newWClock(r)
+	run.writeTimes = wc.on
 	c := resource.NewCollection()
+	s := newSState()
+	committed, seen := map[int64]int64{}, map[int64]int64{}
+	for id := int64(0); id < int64(pre); id++ {
+		ev, _, err := collWriteAt(c, s, id, 'a', wc)
+		if err != nil {
+			return run, fmt.Errorf("collection write failed: %v", err)
+		}
+		run.sent = append(run.sent, ev)
+		foldGo(committed, ev)
+		if updatesOnly {
+			run.got = append(run.got, ev)
+			foldGo(seen, ev)
+		}
+	}
 	ctx, cancel := context.WithCancel(context.Background())
 	defer cancel()
 	ch := c.Pull(ctx, resource.WithUpdatesOnly(updatesOnly))
-	s := newSState()
-	committed, seen := map[int64]int64{}, map[int64]int64{}
+	if !updatesOnly && pre > 0 {
+		run.seedsTaken = r.Intn(pre)
+		for i := 0; i < run.seedsTaken; i++ {
+			select {
+			case e := <-ch:
+				cc := canonAPI(e)
+				run.got = append(run.got, cc)
+				foldGo(seen, cc)
+			case <-time.After(convergeBudget):
+				run.converged = false
+				return run, nil
+			}
+		}
+	}
 	for round := 0; round < rounds; round++ {
 		n := burstSize(r, burst)
 		for i := 0; i < n; i++ {
-			ev, dt, err := collWrite(c, s, r, nids)
+			ev, dt, err := collWrite(c, s, r, nids, wc)
 			if err == errBlocked {
 				// the writer waited for the idle subscriber: recorded, not a harness error
 				run.sent = append(run.sent, ev)
@@ -205,14 +263,28 @@ func runCollLossy(r *vcoq.Rand, rounds, burst int, nids int64, updatesOnly bool)
 }
 
 // backpressure: a subscriber that keeps receiving gets every event
-func runCollBackpressure(r *vcoq.Rand, n int, nids int64, updatesOnly bool) (collRun, error) {
-	run := collRun{bp: true, converged: true, updatesOnly: updatesOnly}
+func runCollBackpressure(r *vcoq.Rand, n int, nids int64, updatesOnly bool, pre int) (collRun, error) {
+	run := collRun{bp: true, converged: true, updatesOnly: updatesOnly, pre: pre}
+	wc := newWClock(r)
+	run.writeTimes = wc.on
 	c := resource.NewCollection()
+	s := newSState()
+	var mu sync.Mutex
+	var got []cchange
+	for id := int64(0); id < int64(pre); id++ {
+		ev, _, err := collWriteAt(c, s, id, 'a', wc)
+		if err != nil {
+			return run, fmt.Errorf("collection write failed: %v", err)
+		}
+		run.sent = append(run.sent, ev)
+		if updatesOnly {
+			got = append(got, ev) // the start view, see runCollLossy
+		}
+	}
+	n += pre
 	ctx, cancel := context.WithCancel(context.Background())
 	defer cancel()
 	ch := c.Pull(ctx, resource.WithBackpressure(true), resource.WithUpdatesOnly(updatesOnly))
-	var mu sync.Mutex
-	var got []cchange
 	done := make(chan struct{})
 	go func() {
 		defer close(done)
@@ -225,9 +297,8 @@ func runCollBackpressure(r *vcoq.Rand, n int, nids int64, updatesOnly bool) (col
 			}
 		}
 	}()
-	s := newSState()
-	for i := 0; i < n; i++ {
-		ev, dt, err := collWrite(c, s, r, nids)
+	for i := pre; i < n; i++ {
+		ev, dt, err := collWrite(c, s, r, nids, wc)
 		if err == errBlocked {
 			run.sent = append(run.sent, ev)
 			run.converged = false
@@ -272,6 +343,7 @@ func burstSize(r *vcoq.Rand, burst int) int {
 }
 
 type valRun struct {
+	writeTimes  bool
 	updatesOnly bool
 	scenario    string
 	bp          bool
@@ -282,6 +354,8 @@ type valRun struct {
 
 func runValueLossy(r *vcoq.Rand, rounds, burst int, updatesOnly bool) (valRun, error) {
 	run := valRun{converged: true, updatesOnly: updatesOnly}
+	wc := newWClock(r)
+	run.writeTimes = wc.on
 	v := resource.NewValue(resource.WithInitialValue(tok(0)))
 	ctx, cancel := context.WithCancel(context.Background())
 	defer cancel()
@@ -301,7 +375,8 @@ func runValueLossy(r *vcoq.Rand, rounds, burst int, updatesOnly bool) (valRun, e
 		for i := 0; i < n; i++ {
 			var res proto.Message
 			tk := tok(next)
-			dt, err, blocked := timed(func() error { var e error; res, e = v.Set(tk); return e })
+			wo := wc.opts()
+			dt, err, blocked := timed(func() error { var e error; res, e = v.Set(tk, wo...); return e })
 			if blocked || err != nil {
 				// the writer waited for the idle subscriber (and possibly ran into the send timeout)
 				run.sent = append(run.sent, next)
@@ -344,8 +419,10 @@ func runValueLossy(r *vcoq.Rand, rounds, burst int, updatesOnly bool) (valRun, e
 	return run, nil
 }
 
-func runValueBackpressure(n int, updatesOnly bool) (valRun, error) {
+func runValueBackpressure(r *vcoq.Rand, n int, updatesOnly bool) (valRun, error) {
 	run := valRun{bp: true, converged: true, updatesOnly: updatesOnly}
+	wc := newWClock(r)
+	run.writeTimes = wc.on
 	v := resource.NewValue(resource.WithInitialValue(tok(0)))
 	ctx, cancel := context.WithCancel(context.Background())
 	defer cancel()
@@ -371,7 +448,8 @@ func runValueBackpressure(n int, updatesOnly bool) (valRun, error) {
 	for i := 1; i <= n; i++ {
 		var res proto.Message
 		tk := tok(int64(i))
-		_, err, blocked := timed(func() error { var e error; res, e = v.Set(tk); return e })
+		wo := wc.opts()
+		_, err, blocked := timed(func() error { var e error; res, e = v.Set(tk, wo...); return e })
 		if blocked || err != nil {
 			run.sent = append(run.sent, int64(i))
 			run.converged = false
@@ -482,6 +560,8 @@ func runMultiColl(r *vcoq.Rand, lossyFirst bool, nids int64, updatesOnly bool) (
 	}
 	b = collRun{bp: true, converged: true, updatesOnly: updatesOnly, scenario: order + "; this is the backpressured subscriber"}
 	l = collRun{converged: true, updatesOnly: updatesOnly, scenario: order + "; this is the lossy subscriber (drained after all writes)"}
+	wc := newWClock(r)
+	b.writeTimes, l.writeTimes = wc.on, wc.on
 	c := resource.NewCollection()
 	ctx, cancel := context.WithCancel(context.Background())
 	defer cancel()
@@ -554,10 +634,10 @@ func runMultiColl(r *vcoq.Rand, lossyFirst bool, nids int64, updatesOnly bool) (
 		id := ids[r.Intn(len(ids))]
 		w := queues[id][0]
 		queues[id] = queues[id][1:]
-		ok = write(collWriteAt(c, s, w.id, w.w))
+		ok = write(collWriteAt(c, s, w.id, w.w, wc))
 	}
 	for i := int64(0); ok && i < 2*nids; i++ {
-		ok = write(collWrite(c, s, r, nids))
+		ok = write(collWrite(c, s, r, nids, wc))
 	}
 	if err != nil {
 		return
@@ -636,13 +716,14 @@ func runMultiColl(r *vcoq.Rand, lossyFirst bool, nids int64, updatesOnly bool) (
 	return
 }
 
-func runMultiValue(lossyFirst bool, n int, updatesOnly bool) (b, l valRun, err error) {
+func runMultiValue(r *vcoq.Rand, lossyFirst bool, n int, updatesOnly bool) (b, l valRun, err error) {
+	wc := newWClock(r)
 	order := "backpressured subscriber registered first, stalled lossy one second"
 	if lossyFirst {
 		order = "stalled lossy subscriber registered first, prompt backpressured one second"
 	}
-	b = valRun{bp: true, converged: true, updatesOnly: true, scenario: order + "; this is the backpressured subscriber"}
-	l = valRun{converged: true, updatesOnly: updatesOnly, scenario: order + "; this is the lossy subscriber (drained after all writes)"}
+	b = valRun{bp: true, converged: true, updatesOnly: true, writeTimes: wc.on, scenario: order + "; this is the backpressured subscriber"}
+	l = valRun{converged: true, updatesOnly: updatesOnly, writeTimes: wc.on, scenario: order + "; this is the lossy subscriber (drained after all writes)"}
 	v := resource.NewValue(resource.WithInitialValue(tok(0)))
 	ctx, cancel := context.WithCancel(context.Background())
 	defer cancel()
@@ -678,7 +759,8 @@ func runMultiValue(lossyFirst bool, n int, updatesOnly bool) (b, l valRun, err e
 	for i := 1; i <= n; i++ {
 		var res proto.Message
 		tk := tok(int64(i))
-		dt, werr, blocked := timed(func() error { var e error; res, e = v.Set(tk); return e })
+		wo := wc.opts()
+		dt, werr, blocked := timed(func() error { var e error; res, e = v.Set(tk, wo...); return e })
 		if blocked || werr != nil {
 			b.sent, l.sent = append(b.sent, int64(i)), append(l.sent, int64(i))
 			b.converged, l.converged, l.slow = false, false, true
@@ -732,6 +814,109 @@ func runMultiValue(lossyFirst bool, n int, updatesOnly bool) (b, l valRun, err e
 	return
 }
 
+// A writer held between commit and publish (yield point "coll.publish") while a lossy, seeded
+// subscription opens and another write publishes first: the held ADD is already in the seed, so
+// when it finally reaches the bus it must not be delivered again -- merged with a later REMOVE in
+// the lossy stage it would cancel the REMOVE and the stalled subscriber would keep the item for
+// ever.  Runs alone (the hook is process-wide).  ok=false: the yield point was never reached
+// (hook removed or renamed), the scenario is then skipped.
+func runStalePublish() (run collRun, ok bool, err error) {
+	run = collRun{converged: true, pre: 1, scenario: "writer of ADD k0 parked at coll.publish; lossy seeded Pull opens; ADD k1 publishes; the parked ADD k0 publishes; Delete k0; then the subscriber starts receiving"}
+	c := resource.NewCollection()
+	var armed atomic.Bool
+	armed.Store(true)
+	parked, release := make(chan struct{}), make(chan struct{})
+	verifhook.Set(func(point string) {
+		if point == "coll.publish" && armed.CompareAndSwap(true, false) {
+			close(parked)
+			<-release
+		}
+	})
+	defer verifhook.Set(nil)
+	aDone := make(chan error, 1)
+	go func() { _, e := c.Add("k0", tok(1)); aDone <- e }()
+	select {
+	case <-parked:
+	case e := <-aDone:
+		close(release)
+		return run, false, e
+	case <-time.After(2 * time.Second):
+		close(release)
+		return run, false, nil
+	}
+	ctx, cancel := context.WithCancel(context.Background())
+	defer cancel()
+	ch := c.Pull(ctx) // seed shows k0
+	one, two := int64(1), int64(2)
+	evs := []cchange{{ID: 0, Kind: 1, New: &one}, {ID: 1, Kind: 1, New: &two}, {ID: 0, Kind: 3, Old: &one}}
+	var maxWrite time.Duration
+	step := func(f func() error) bool {
+		dt, e, blocked := timed(f)
+		if blocked {
+			run.slow, run.converged = true, false
+			return false
+		}
+		if e != nil {
+			err = e
+			return false
+		}
+		if dt > maxWrite {
+			maxWrite = dt
+		}
+		return true
+	}
+	okw := step(func() error { _, e := c.Add("k1", tok(2)); return e })
+	close(release)
+	if e := <-aDone; e != nil && err == nil {
+		err = e
+	}
+	if okw && err == nil {
+		okw = step(func() error { _, e := c.Delete("k0"); return e })
+	}
+	run.sent = evs
+	if err != nil {
+		return run, true, err
+	}
+	if okw {
+		committed, seen := map[int64]int64{1: 2}, map[int64]int64{}
+		deadline := time.NewTimer(convergeBudget)
+		defer deadline.Stop()
+	drain:
+		for {
+			for !sameView(committed, seen) || len(run.got) == 0 {
+				select {
+				case e, okc := <-ch:
+					if !okc {
+						run.converged = false
+						break drain
+					}
+					cc := canonAPI(e)
+					run.got = append(run.got, cc)
+					foldGo(seen, cc)
+				case <-deadline.C:
+					run.converged = false
+					break drain
+				}
+			}
+			t := time.NewTimer(quiet)
+			select {
+			case e, okc := <-ch:
+				t.Stop()
+				if okc {
+					cc := canonAPI(e)
+					run.got = append(run.got, cc)
+					foldGo(seen, cc)
+					continue
+				}
+			case <-t.C:
+			}
+			break
+		}
+	}
+	run.slow = run.slow || maxWrite > writeBudget
+	return run, true, nil
+}
+
 func collCase(kind string, run collRun) vcoq.Case {
 	tags := []string{"api:" + kind}
 	if run.updatesOnly {
@@ -740,7 +925,17 @@ func collCase(kind string, run collRun) vcoq.Case {
 	if len(run.got) < len(run.sent) {
 		tags = append(tags, "api:events-merged")
 	}
+	if run.pre > 0 {
+		tags = append(tags, "api:non-empty-at-subscribe")
+		if !run.updatesOnly && !run.bp {
+			tags = append(tags, "api:seed-partly-taken-before-writes")
+		}
+	}
+	if run.writeTimes {
+		tags = append(tags, "api:non-monotonic-write-times")
+	}
 	js := map[string]any{"kind": "Collection.Pull", "backpressure": run.bp, "updates_only": run.updatesOnly,
+		"items_at_subscribe": run.pre, "seed_events_taken_before_first_write": run.seedsTaken, "non_monotonic_write_times": run.writeTimes,
 		"committed": jsChanges(run.sent), "received": jsChanges(run.got),
 		"converged": run.converged, "write_over_budget": run.slow}
 	if run.scenario != "" {
@@ -763,7 +958,10 @@ func valCase(kind string, run valRun) vcoq.Case {
 	if len(run.got) < len(run.sent) {
 		tags = append(tags, "api:values-dropped")
 	}
-	js := map[string]any{"kind": "Value.Pull", "backpressure": run.bp, "updates_only": run.updatesOnly,
+	if run.writeTimes {
+		tags = append(tags, "api:non-monotonic-write-times")
+	}
+	js := map[string]any{"kind": "Value.Pull", "backpressure": run.bp, "updates_only": run.updatesOnly, "non_monotonic_write_times": run.writeTimes,
 		"written": run.sent, "received": run.got, "converged": run.converged, "write_over_budget": run.slow}
 	if run.scenario != "" {
 		js["subscribers"] = run.scenario
@@ -790,21 +988,39 @@ func genAPI(o *vcoq.Out, r *vcoq.Rand, thorough bool) error {
 		ids         int64
 		updatesOnly bool
 		lossyFirst  bool
+		pre         int
 	}
 	var jobs []job
 	for i := 0; i < nl; i++ {
 		uo := i%2 == 1 // every scenario with and without WithUpdatesOnly(true)
-		jobs = append(jobs, job{"coll-lossy", r.U64(), r.Range(1, 6), []int{3, 8, 30}[r.Intn(3)], int64(r.Range(1, 4)), uo, false})
-		jobs = append(jobs, job{"value-lossy", r.U64(), r.Range(1, 6), []int{3, 8, 30}[r.Intn(3)], 0, uo, false})
+		// two of three collection runs start from a collection holding 1..5 items
+		pre := 0
+		if i%3 != 0 {
+			pre = r.Range(1, 5)
+		}
+		ids := int64(r.Range(1, 4))
+		if int64(pre) > ids {
+			ids = int64(pre)
+		}
+		jobs = append(jobs, job{"coll-lossy", r.U64(), r.Range(1, 6), []int{3, 8, 30}[r.Intn(3)], ids, uo, false, pre})
+		jobs = append(jobs, job{"value-lossy", r.U64(), r.Range(1, 6), []int{3, 8, 30}[r.Intn(3)], 0, uo, false, 0})
 	}
 	for i := 0; i < nb; i++ {
 		uo := i%2 == 1
-		jobs = append(jobs, job{"coll-bp", r.U64(), r.Range(1, 60), 0, int64(r.Range(1, 4)), uo, false})
-		jobs = append(jobs, job{"value-bp", r.U64(), r.Range(1, 60), 0, 0, uo, false})
+		pre := 0
+		if i%3 != 0 {
+			pre = r.Range(1, 5)
+		}
+		ids := int64(r.Range(1, 4))
+		if int64(pre) > ids {
+			ids = int64(pre)
+		}
+		jobs = append(jobs, job{"coll-bp", r.U64(), r.Range(1, 60), 0, ids, uo, false, pre})
+		jobs = append(jobs, job{"value-bp", r.U64(), r.Range(1, 60), 0, 0, uo, false, 0})
 	}
 	for i := 0; i < nm; i++ {
-		jobs = append(jobs, job{"multi-coll", r.U64(), 0, 0, int64(r.Range(1, 3)), i%4 >= 2, i%2 == 0})
-		jobs = append(jobs, job{"multi-value", r.U64(), r.Range(3, 20), 0, 0, i%4 >= 2, i%2 == 0})
+		jobs = append(jobs, job{"multi-coll", r.U64(), 0, 0, int64(r.Range(1, 3)), i%4 >= 2, i%2 == 0, 0})
+		jobs = append(jobs, job{"multi-value", r.U64(), r.Range(3, 20), 0, 0, i%4 >= 2, i%2 == 0, 0})
 	}
 	cases := make([][]vcoq.Case, len(jobs))
 	errs := make([]error, len(jobs))
@@ -824,12 +1040,12 @@ func genAPI(o *vcoq.Out, r *vcoq.Rand, thorough bool) error {
 			switch j.kind {
 			case "coll-lossy":
 				var run collRun
-				run, err = runCollLossy(vcoq.NewRand(j.seed), j.a, j.b, j.ids, j.updatesOnly)
+				run, err = runCollLossy(vcoq.NewRand(j.seed), j.a, j.b, j.ids, j.updatesOnly, j.pre)
 				bad = !run.converged || run.slow
 				cs = []vcoq.Case{collCase(j.kind, run)}
 			case "coll-bp":
 				var run collRun
-				run, err = runCollBackpressure(vcoq.NewRand(j.seed), j.a, j.ids, j.updatesOnly)
+				run, err = runCollBackpressure(vcoq.NewRand(j.seed), j.a, j.ids, j.updatesOnly, j.pre)
 				bad = !run.converged
 				cs = []vcoq.Case{collCase(j.kind, run)}
 			case "value-lossy":
@@ -839,7 +1055,7 @@ func genAPI(o *vcoq.Out, r *vcoq.Rand, thorough bool) error {
 				cs = []vcoq.Case{valCase(j.kind, run)}
 			case "value-bp":
 				var run valRun
-				run, err = runValueBackpressure(j.a, j.updatesOnly)
+				run, err = runValueBackpressure(vcoq.NewRand(j.seed), j.a, j.updatesOnly)
 				bad = !run.converged
 				cs = []vcoq.Case{valCase(j.kind, run)}
 			case "multi-coll":
@@ -849,7 +1065,7 @@ func genAPI(o *vcoq.Out, r *vcoq.Rand, thorough bool) error {
 				cs = []vcoq.Case{collCase("multi-coll-bp", b), collCase("multi-coll-lossy", l)}
 			case "multi-value":
 				var b, l valRun
-				b, l, err = runMultiValue(j.lossyFirst, j.a, j.updatesOnly)
+				b, l, err = runMultiValue(vcoq.NewRand(j.seed), j.lossyFirst, j.a, j.updatesOnly)
 				bad = !b.converged || !l.converged || l.slow
 				cs = []vcoq.Case{valCase("multi-value-bp", b), valCase("multi-value-lossy", l)}
 			}
@@ -872,6 +1088,25 @@ func genAPI(o *vcoq.Out, r *vcoq.Rand, thorough bool) error {
 		}
 		for _, c := range cs {
 			o.Add(c)
+		}
+	}
+	// the publish-reordering scenario needs the process-wide yield hook: it runs alone
+	nstale := 3
+	if thorough {
+		nstale = 20
+	}
+	for i := 0; i < nstale; i++ {
+		run, ok, err := runStalePublish()
+		if err != nil {
+			return err
+		}
+		if !ok {
+			o.Extra["stale_publish_scenario"] = "skipped: yield point coll.publish not reached"
+			break
+		}
+		o.Add(collCase("stale-publish", run))
+		if !run.converged {
+			break
 		}
 	}
 	for _, useValue := range []bool{false, true} {
